@@ -764,3 +764,199 @@ Qed.
 (** the case the driver would print for the model, from a case the driver printed for the code *)
 Definition self_case (cs : case) : case :=
   let '(c, o0, l) := cs in model_case (map fst (o_bals o0)) c (o_height o0) (o_time o0) (ledger_of o0) (map fst l).
+
+(** ** C08, clause 1: what an end-block does to the stored requests *)
+Definition inb (id : ctxid) (b : Z) (rid : reqid) : bool := let '(i, b0, _, _) := rid in eqb i id && (b0 =? b).
+Lemma in_batch_inb id b e : in_batch id b e = inb id b (fst e).
+Proof. reflexivity. Qed.
+Lemma inb_ctx id b rid : inb id b rid = true -> rid_ctx rid = id.
+Proof. destruct rid as [[[i b0] hh] ii]. simpl. intros H. apply andb_true_iff in H. apply (proj1 (eqb_true_iff i id)). tauto. Qed.
+
+Lemma get_filter_keep {K V} `{EqDec K} (f : K * V -> bool) (k : K) (v : V) (m : amap K V) :
+  NoDup (keys m) -> get k m = Some v -> f (k, v) = true -> get k (filter f m) = Some v.
+Proof.
+  intros Hnd Hg Hf. apply In_get_NoDup; [apply keys_filter_NoDup; exact Hnd|]. apply filter_In. split; [apply get_In; exact Hg|exact Hf].
+Qed.
+
+Lemma get_filter_true {K V} `{EqDec K} (f : K * V -> bool) (k : K) (v : V) (m : amap K V) :
+  get k (filter f m) = Some v -> f (k, v) = true.
+Proof. intros Hg. apply get_In in Hg. apply filter_In in Hg. tauto. Qed.
+
+Lemma get_fold_set_notin {K V} `{EqDec K} (rs : list (K * V)) : forall (m : amap K V) k,
+  ~ In k (map fst rs) -> get k (fold_left (fun m e => set (fst e) (snd e) m) rs m) = get k m.
+Proof.
+  induction rs as [|[k0 v0] rs IH]; simpl; intros m k Hn; [reflexivity|].
+  rewrite IH by tauto. apply get_set_other. intros ->. tauto.
+Qed.
+
+Lemma expire_fold_get c x : forall act s rid, ~ In rid (map fst act) ->
+  get rid (reqs (fold_left (expire_request c x) act s)) = get rid (reqs s).
+Proof.
+  induction act as [|[r q] act IH]; cbn [fold_left]; intros s rid Hn; [reflexivity|]. simpl in Hn.
+  rewrite IH by tauto. destruct (expire_struct c x s r q) as (R & _). rewrite R. apply get_set_other. intros ->. tauto.
+Qed.
+
+Lemma expired_handler_reqs c t id :
+  QInv t -> BatchInv t -> LInv false t -> In (height t, id) (expq t) ->
+  let t' := expired_batch_handler c t id in
+  (forall rid q', get rid (reqs t') = Some q' -> get rid (reqs t) = Some q')
+  /\ (forall rid q, get rid (reqs t) = Some q -> get rid (reqs t') = None -> q_active q = false \/ q_exp q = height t).
+Proof.
+  intros Hq Hb Hl Hin. cbv zeta. unfold expired_batch_handler.
+  destruct (get id (ctxs t)) as [x|] eqn:Eg; [|split; [intros; assumption|intros rid q A B; congruence]].
+  set (pr := if x_brun x then _ else (t, x)).
+  assert (Hpr : NoDup (keys (reqs (fst pr))) /\ x_batch (snd pr) = x_batch x
+                /\ (forall rid, inb id (x_batch x) rid = false -> get rid (reqs (fst pr)) = get rid (reqs t))).
+  { subst pr. destruct (x_brun x) eqn:Eb; [|split; [exact (b_keys _ Hb)|split; [reflexivity|intros; reflexivity]]].
+    cbn [fst snd]. set (act := filter _ (reqs t)).
+    assert (Hnd : NoDup (map fst act)) by (subst act; apply (keys_filter_NoDup _ (reqs t)); exact (b_keys _ Hb)).
+    assert (Hall : forall e, In e act -> get (fst e) (reqs t) = Some (snd e)).
+    { intros [r q] He. subst act. apply filter_In in He. simpl. apply In_get_NoDup; [exact (b_keys _ Hb)|tauto]. }
+    destruct (expire_fold_reqs c x act t (b_keys _ Hb) Hnd Hall) as (A & _).
+    assert (G : forall rid, inb id (x_batch x) rid = false -> get rid (reqs (fold_left (expire_request c x) act t)) = get rid (reqs t)).
+    { intros rid Hi. apply expire_fold_get. intros Hm. apply in_map_iff in Hm. destruct Hm as ([r q] & <- & He).
+      subst act. apply filter_In in He. destruct He as (_ & He). rewrite in_batch_inb in He. simpl in He, Hi. rewrite Hi in He. discriminate. }
+    destruct (x_mod x); (split; [|split; [reflexivity|]]).
+    - rewrite (proj1 (callback_same _ id)). exact A.
+    - intros rid Hi. rewrite (proj1 (callback_same _ id)). apply G. exact Hi.
+    - exact A.
+    - exact G. }
+  destruct pr as [s1 x1]. cbn [fst snd] in Hpr. destruct Hpr as (K1 & B1 & G1). cbv zeta.
+  match goal with |- context [with_reqs ?t0 (filter ?f (reqs ?t0))] =>
+    assert (Rt : reqs t0 = reqs s1) by (destruct (x_state x1 =? 2); destruct (x_state x1 =? 0); try destruct (x_rep x1 && _); reflexivity);
+    set (tt := t0) in *; clearbody tt end.
+  cbn [reqs with_reqs]. rewrite Rt, B1. split.
+  - intros rid q' Hg. pose proof (get_filter_true _ _ _ _ Hg) as Hf. apply (get_filter_NoDup _ _ _ _ K1) in Hg.
+    cbv beta in Hf. rewrite in_batch_inb in Hf. cbn [fst] in Hf. apply negb_true_iff in Hf. rewrite <- (G1 rid Hf). exact Hg.
+  - intros rid q Hg Hn. destruct (inb id (x_batch x) rid) eqn:Ei.
+    + destruct (q_active q) eqn:Ea; [right|left; reflexivity].
+      pose proof (l_exp _ _ Hl rid q Hg Ea) as Hm. rewrite (inb_ctx _ _ _ Ei) in Hm.
+      pose proof (q_exp_mark _ Hq _ _ Hin) as Hm2. congruence.
+    + exfalso. rewrite <- (G1 rid Ei) in Hg.
+      rewrite (get_filter_keep (fun e => negb (in_batch id (x_batch x) e)) rid q (reqs s1) K1 Hg) in Hn; [discriminate|].
+      cbv beta. rewrite in_batch_inb. cbn [fst]. rewrite Ei. reflexivity.
+Qed.
+
+Lemma mk_requests_fields s x id batch : forall ps i e, In e (mk_requests s x id batch i ps) ->
+  rid_h (fst e) = height s /\ q_active (snd e) = true /\ q_resp (snd e) = 0 /\ q_height (snd e) = height s
+  /\ q_exp (snd e) = height s + x_timeout x.
+Proof.
+  induction ps as [|p ps IH]; simpl; intros i e He; [tauto|]. destruct (fee_of s x p) as [fd fee].
+  destruct He as [<-|He]; [repeat split|]. eapply IH. exact He.
+Qed.
+
+Definition newreq (h : Z) (rid : reqid) (q : request) : Prop :=
+  rid_h rid = h /\ q_active q = true /\ q_resp q = 0 /\ q_height q = h.
+
+Lemma new_handler_reqs s id :
+  let t' := new_batch_handler s id in
+  (forall rid, rid_h rid <> height s -> get rid (reqs t') = get rid (reqs s))
+  /\ (forall rid q', get rid (reqs t') = Some q' -> get rid (reqs s) = Some q' \/ newreq (height s) rid q')
+  /\ height t' = height s.
+Proof.
+  cbv zeta. unfold new_batch_handler.
+  assert (Same : forall t, reqs t = reqs s -> height t = height s ->
+            (forall rid, rid_h rid <> height s -> get rid (reqs t) = get rid (reqs s))
+            /\ (forall rid q', get rid (reqs t) = Some q' -> get rid (reqs s) = Some q' \/ newreq (height s) rid q')
+            /\ height t = height s).
+  { intros t R Hh. rewrite R. split; [reflexivity|]. split; [intros; left; assumption|exact Hh]. }
+  destruct (get id (ctxs s)) as [x|] eqn:Eg; [|apply Same; reflexivity].
+  destruct (x_state x =? 0); [|apply Same; reflexivity].
+  destruct (filter_provs s x (x_provs x)) as [ps|]; [|apply Same; reflexivity].
+  cbv zeta. destruct (_ && _); [|apply Same; reflexivity].
+  destruct (debit_all _ _ _) as [l|]; [|apply Same; unfold on_paused; destruct (x_mod x); reflexivity].
+  set (sl := with_led s (credit_all l REQ (total_fees s x ps))).
+  set (rs := mk_requests sl x id (x_batch x + 1) 0 ps).
+  assert (R : reqs (dequeue_new (initiate sl id x ps) id) = fold_left (fun m e => set (fst e) (snd e) m) rs (reqs s)) by reflexivity.
+  rewrite R. split; [|split; [|reflexivity]].
+  - intros rid Hne. apply get_fold_set_notin. intros Hin. apply in_map_iff in Hin. destruct Hin as (e & <- & He).
+    apply Hne. exact (proj1 (mk_requests_fields sl x id _ ps 0 e He)).
+  - intros rid q' Hg. apply get_fold_set in Hg. destruct Hg as [Hin|Hg]; [right|left; exact Hg].
+    destruct (mk_requests_fields sl x id _ ps 0 (rid, q') Hin) as (A & B & C & D & _). repeat split; assumption.
+Qed.
+
+(** the end blocker, from a state whose stored request ids all carry an earlier height: a stored
+    request survives unchanged or is removed (inactive, or expiring at this height); everything
+    new is active, unanswered, created at this height; nothing active is left at or before it *)
+Lemma end_block_reqs c s dt :
+  QInv s -> BatchInv s -> LInv false s ->
+  (forall rid, has rid (reqs s) = true -> rid_h rid < height s) ->
+  let s' := end_block c s dt in
+  (forall rid q, get rid (reqs s) = Some q ->
+     match get rid (reqs s') with Some q' => q' = q | None => q_active q = false \/ q_exp q = height s end)
+  /\ (forall rid q', get rid (reqs s') = Some q' -> get rid (reqs s) = None -> newreq (height s) rid q' /\ height s < q_exp q')
+  /\ (forall rid q', get rid (reqs s') = Some q' -> q_active q' = true -> height s < q_exp q').
+Proof.
+  intros Hq Hb Hl Hold. unfold end_block. cbv zeta.
+  set (s1 := fold_left (expired_batch_handler c) _ s).
+  assert (H1 : (QInv s1 /\ BatchInv s1 /\ LInv false s1 /\ height s1 = height s
+               /\ (forall rid q', get rid (reqs s1) = Some q' -> get rid (reqs s) = Some q')
+               /\ (forall rid q, get rid (reqs s) = Some q -> get rid (reqs s1) = None -> q_active q = false \/ q_exp q = height s))).
+  { subst s1.
+    apply (fold_handlers (fun t => QInv t /\ BatchInv t /\ LInv false t /\ height t = height s
+               /\ (forall rid q', get rid (reqs t) = Some q' -> get rid (reqs s) = Some q')
+               /\ (forall rid q, get rid (reqs s) = Some q -> get rid (reqs t) = None -> q_active q = false \/ q_exp q = height s))
+             (expired_batch_handler c) (fun t id => In (height t, id) (expq t))).
+    - intros t id (Tq & Tb & Tl & Th & Ta & Tr) Hpre.
+      destruct (QInv_expired_handler c t id Tq Hpre) as (A & B & C).
+      destruct (LInv_expired_handler c t id Tq Tb Hpre Tl) as (L & _).
+      pose proof (BatchInv_expired_handler c t id Tb) as Bb.
+      destruct (expired_handler_reqs c t id Tq Tb Tl Hpre) as (Ea & Er).
+      split.
+      + split; [exact A|]. split; [exact Bb|]. split; [exact L|]. split; [congruence|]. split.
+        * intros rid q' Hg. apply Ta. apply Ea. exact Hg.
+        * intros rid q Hg Hn. destruct (get rid (reqs t)) as [q1|] eqn:E1.
+          -- pose proof (Ta rid q1 E1) as E2. rewrite Hg in E2. inversion E2; subst q1. rewrite <- Th. exact (Er rid q E1 Hn).
+          -- exact (Tr rid q Hg E1).
+      + intros id' Hne Hp. rewrite B. apply C; assumption.
+    - apply due_NoDup. exact (q_exp_nodup _ Hq).
+    - split; [exact Hq|]. split; [exact Hb|]. split; [exact Hl|]. split; [reflexivity|]. split; [intros; assumption|intros rid q A B; congruence].
+    - intros id Hin. apply due_in in Hin. exact Hin. }
+  destruct H1 as (Q1 & B1 & L1 & Hh1 & Ha1 & Hr1).
+  (* no expiry marker at this height is left: the liveness invariant is strict again *)
+  assert (P1 : forall id0, get id0 (expmark s1) <> Some (height s1)).
+  { assert (F := LInv_phase1 c (due (height s) (expq s)) s (due_NoDup _ _ (q_exp_nodup _ Hq)) Hq Hb Hl).
+    cbv zeta in F. fold s1 in F. apply F.
+    - intros id Hin. apply due_in in Hin. exact Hin.
+    - intros id0 E. apply due_in. exact (proj1 (l_mark _ _ Hl id0 _ E)). }
+  assert (L1s : LInv true s1).
+  { destruct L1 as [J1 J2 J3 J4]. constructor; try assumption. intros id0 h E. destruct (J3 id0 h E) as (A & B). split; [exact A|].
+    assert (h <> height s1) by (intros ->; exact (P1 id0 E)). lia. }
+  set (s2 := fold_left new_batch_handler _ s1).
+  assert (H2 : ((QInv s2 /\ BatchInv s2 /\ LInv true s2)
+                /\ (forall rid, rid_h rid <> height s -> get rid (reqs s2) = get rid (reqs s1))
+                /\ (forall rid q', get rid (reqs s2) = Some q' -> get rid (reqs s1) = Some q' \/ newreq (height s) rid q'))
+               /\ height s2 = height s1).
+  { subst s2.
+    apply (fold_handlers (fun t => ((QInv t /\ BatchInv t /\ LInv true t)
+                /\ (forall rid, rid_h rid <> height s -> get rid (reqs t) = get rid (reqs s1))
+                /\ (forall rid q', get rid (reqs t) = Some q' -> get rid (reqs s1) = Some q' \/ newreq (height s) rid q'))
+               /\ height t = height s1) new_batch_handler (fun t id => In (height t, id) (newq t))).
+    - intros t id (((Tq & Tb & Tl) & Tc & Td) & Hh) Hpre. destruct (QInv_new_handler t id Tq Hpre) as (A & B & C).
+      destruct (new_handler_reqs t id) as (Nc & Nd & Nh). cbv zeta in Nc, Nd, Nh.
+      assert (Eh : height t = height s) by congruence.
+      split; [split; [|congruence]|].
+      + split; [|split].
+        * split; [exact A|]. split; [|apply LInv_new_handler; assumption].
+          apply BatchInv_new_handler; [exact Tb|]. intros x Hx. eapply (q_new_closed _ Tq); eassumption.
+        * intros rid Hne. rewrite Nc by (rewrite Eh; exact Hne). apply Tc. exact Hne.
+        * intros rid q' Hg. destruct (Nd rid q' Hg) as [Hg1|Hn]; [apply Td; exact Hg1|right; rewrite <- Eh; exact Hn].
+      + intros id' Hne Hpp. rewrite B. apply C; assumption.
+    - apply due_NoDup. exact (q_new_nodup _ Q1).
+    - split; [|reflexivity]. split; [split; [exact Q1|split; [exact B1|exact L1s]]|]. split; [reflexivity|intros; left; assumption].
+    - intros id Hin. apply due_in in Hin. exact Hin. }
+  destruct H2 as (((Q2 & B2 & L2) & Hc2 & Hd2) & Hh2).
+  cbn [reqs with_iidx with_time with_height].
+  assert (Old : forall rid, has rid (reqs s) = true -> get rid (reqs s2) = get rid (reqs s1)).
+  { intros rid Hh. apply Hc2. specialize (Hold rid Hh). lia. }
+  split; [|split].
+  - intros rid q Hg. assert (Hh : has rid (reqs s) = true) by (unfold has; rewrite Hg; reflexivity).
+    rewrite (Old rid Hh). destruct (get rid (reqs s1)) as [q'|] eqn:E1.
+    + pose proof (Ha1 rid q' E1) as E2. congruence.
+    + exact (Hr1 rid q Hg E1).
+  - intros rid q' Hg Hn. destruct (Hd2 rid q' Hg) as [Hg1|Hnew].
+    + pose proof (Ha1 rid q' Hg1) as E2. congruence.
+    + split; [exact Hnew|]. destruct Hnew as (_ & Ha & _).
+      pose proof (l_exp _ _ L2 rid q' Hg Ha) as Hm. destruct (l_mark _ _ L2 _ _ Hm) as (_ & Hlt). cbv beta iota in Hlt. lia.
+  - intros rid q' Hg Ha. pose proof (l_exp _ _ L2 rid q' Hg Ha) as Hm. destruct (l_mark _ _ L2 _ _ Hm) as (_ & Hlt). cbv beta iota in Hlt. lia.
+Qed.
